@@ -1,5 +1,71 @@
 /-
-  CoseProofs.Deep.KeyRoundTrip — header comment filled in at the end.
+  CoseProofs.Deep.KeyRoundTrip — the CBOR-level round trip of COSE_Key in the model:
+  `Key.marshal` (key.go `MarshalCBOR`) followed by `Key.unmarshal` (`UnmarshalCBOR`), and the
+  idempotence of re-encoding an accepted key.  Backs C14 ("COSE_Key conversion round-trips every
+  key, coordinates at full length") and C15 ("re-encoding an accepted COSE_Key yields a key that
+  decodes to the same canonical bytes").  Core Lean only; axioms: propext, Quot.sound,
+  Classical.choice.
+
+  WHAT IS PROVED (plain words)
+
+  * `C14.key_marshal_unmarshal` — if `k` lies in the flat data model, its parameters do not use
+    the labels 1 … 5 of the common fields, `validate` accepts it and `MarshalCBOR` returns `b`, then
+    `UnmarshalCBOR(b)` succeeds with a key `k'` that has EXACTLY the same kty, kid, alg, key_ops
+    and Base IV (the model performs no nil/empty normalisation on these: `some []` stays
+    `some []`, `none` stays `none`), and whose parameter under every label `l` is `wireParam k l`:
+    the parameter of `k`, typed as the generic decoder types it (`kNorm`: every Go integer kind /
+    `Algorithm` / `Curve` becomes `int64`, `[]byte(nil)` becomes nil), with EC2 x / y left-padded
+    to the curve size, and the curve of an EC2 / OKP key retyped to `Curve`.  Consequences stated
+    in the theorem: `k'.pbytes n = wirePbytes k n` (the byte-string accessors agree, x / y at full
+    length), `k'.crv = k.crv` for EC2 / OKP, `k'` is valid, is again in the data model, and has no
+    parameter under 1 … 5.  key_ops (an array value) is included.
+  * `C14.ec2_key_wire_roundtrip`, `C14.okp_key_wire_roundtrip` — every key `NewKeyFromPublic /
+    NewKeyFromPrivate` builds (`keyFromEC`, `keyFromEd`) marshals, the bytes unmarshal, kty / alg /
+    curve are preserved, `ecCoords` of the result are the numbers put in, and x and y are stored
+    at exactly `curveSize` bytes (for non-zero coordinates); OKP x and d come back unchanged.  No
+    hypothesis beyond `keyFrom… = .ok k` (coordinate bounds follow from it).
+  * `C15.reencode_idempotent` — if `UnmarshalCBOR(b) = k` and every parameter VALUE of `k` is a
+    `KVal`, then `MarshalCBOR(k) = b'` succeeds, `UnmarshalCBOR(b') = k2` succeeds, and
+    `MarshalCBOR(k2) = b'` again: decode → encode → decode → encode is a fixpoint of canonical
+    bytes.  `k2` has the same common fields as `k` and the parameters `wireParam k`.  `k2 = k` is
+    NOT claimed and is false in general: `k2.params` is in canonical (sorted) order and carries
+    x / y at full length, while `k.params` is in the order and length of the input `b`.
+    `C15.reencode_stable`: all further cycles return `b'` and `k2`; `C15.accepted_marshals`.
+  * `KeyRT.accepted_flat` — for ANY accepted key the ranges of the common fields, the shape of
+    the labels (`int64` in range or valid UTF-8 text) and the size of the re-encoded map follow
+    from the decoder; only the shape of the parameter values has to be assumed.
+  * building blocks of independent use: `KeyRT.kmap_roundtrip` (encoder / parser / generic decoder
+    round trip for maps whose values are flat or arrays of flat values — the extension of
+    `C08.flat_map_roundtrip` needed for key_ops), `KeyRT.marshalMap_lookup` (what `MarshalCBOR`
+    stores under each label), `KeyRT.decoded_lookup`, `KeyRT.validate_transfer`.
+
+  HYPOTHESES THAT REMAIN, AND WHY
+
+  * `KeyFlat k` (decidable; theorem 1): kty / alg / key_ops entries in the int64 range, kid /
+    Base IV / byte strings / text shorter than 2^64 (true of every Go value; the model's `Int` and
+    lists do not enforce it), text valid UTF-8 (Go strings with invalid UTF-8 are emitted as is and
+    refused by the decoder), parameter values in `KVal` (integers, `Algorithm`, `Curve`, text, byte
+    strings, `[]byte(nil)`, booleans, nil, arrays of such scalars — no nested maps, floats, simple
+    values, countersignatures), and parameter labels spelt `int64` or text (`KeyLabel`).
+    The `int64` spelling is needed: `key_marshal_unmarshal_needs_int64_labels` (a 33 byte `d`
+    under the Go key `int8(-4)` is invisible to `validate`, is emitted under -4 and refused by
+    `UnmarshalCBOR`; go-cose behaves the same).
+  * `k.validate .none = none` (theorem 1): `MarshalCBOR` does not validate, `UnmarshalCBOR` does —
+    `key_marshal_unmarshal_needs_validate` (`Key{Type: Symmetric}` ↦ `a1 01 04` ↦ error).
+  * `ParamsDisjoint k` (decidable; theorem 1): `MarshalCBOR` lets an entry of `Params` stored
+    under 1 … 5 silently overwrite the common field — `key_marshal_unmarshal_needs_disjoint`:
+    `Key{Type: 4, Params: {1: 5, -1: h'01'}}` is valid, marshals to `a2 01 05 20 41 01`, and
+    decodes as a key of type 5.  go-cose v1 behaves the same (checked against /repo): the
+    duplicate-label check of `MarshalCBOR` only covers `Params` against itself.  Accepted keys
+    never have such parameters (`KeyRT.accepted_params`), so theorem 3 does not need it.
+  * `KeySize k` (decidable; theorem 1): `k.params.length + 5 ≤ 131072`, the decoder's pair limit.
+    A hypothesis of this kind is necessary (a larger map is emitted and then refused); the
+    constant is not shown to be tight and no counterexample theorem is given (it would need a
+    131068-entry key).  Theorem 3 does not need it (`accepted_flat`).
+  * theorem 3: `∀ e ∈ k.params, KVal e.2` — the general decode → encode → decode theorem for
+    arbitrary nested values is not available in this development (`C08.flat_map_roundtrip` covers
+    scalar values, `kmap_roundtrip` adds arrays of scalars).  Tags and bignums need no clause:
+    the model answers `unmodelled` for them, so they never reach `Key.unmarshal b = .ok k`.
 -/
 import CoseProofs.Deep.RoundTrip
 import CoseProofs.Deep.Keys
@@ -35,6 +101,48 @@ def kNorm : GoVal → GoVal
   | .arr xs => .arr (xs.map normVal)
   | .bytesNil => .nil
   | v => normVal v
+
+/-! the predicates are decidable -/
+
+instance : DecidablePred FlatVal := fun v =>
+  match v with
+  | .int _ n => inferInstanceAs (Decidable (int64Range n))
+  | .alg n => inferInstanceAs (Decidable (int64Range n))
+  | .crv n => inferInstanceAs (Decidable (int64Range n))
+  | .str b => inferInstanceAs (Decidable (utf8Valid b = true ∧ b.length < 18446744073709551616))
+  | .bytes b => inferInstanceAs (Decidable (b.length < 18446744073709551616))
+  | .bool _ => isTrue trivial
+  | .nil => isTrue trivial
+  | .bytesNil => isFalse (fun h => h)
+  | .simple _ => isFalse (fun h => h)
+  | .float _ => isFalse (fun h => h)
+  | .arr _ => isFalse (fun h => h)
+  | .map _ => isFalse (fun h => h)
+  | .csig .. => isFalse (fun h => h)
+  | .csigNil => isFalse (fun h => h)
+  | .csigs _ => isFalse (fun h => h)
+  | .csigsNil => isFalse (fun h => h)
+  | .opaque => isFalse (fun h => h)
+
+instance : DecidablePred KVal := fun v =>
+  match v with
+  | .int _ n => inferInstanceAs (Decidable (int64Range n))
+  | .alg n => inferInstanceAs (Decidable (int64Range n))
+  | .crv n => inferInstanceAs (Decidable (int64Range n))
+  | .str b => inferInstanceAs (Decidable (utf8Valid b = true ∧ b.length < 18446744073709551616))
+  | .bytes b => inferInstanceAs (Decidable (b.length < 18446744073709551616))
+  | .bool _ => isTrue trivial
+  | .nil => isTrue trivial
+  | .bytesNil => isTrue trivial
+  | .arr xs => inferInstanceAs (Decidable ((∀ x ∈ xs, FlatVal x) ∧ xs.length ≤ maxElems))
+  | .simple _ => isFalse (fun h => h)
+  | .float _ => isFalse (fun h => h)
+  | .map _ => isFalse (fun h => h)
+  | .csig .. => isFalse (fun h => h)
+  | .csigNil => isFalse (fun h => h)
+  | .csigs _ => isFalse (fun h => h)
+  | .csigsNil => isFalse (fun h => h)
+  | .opaque => isFalse (fun h => h)
 
 theorem KVal.of_flat {v : GoVal} (h : FlatVal v) : KVal v := by
   cases v <;> simp only [FlatVal] at h <;> simp only [KVal] <;> exact h
@@ -265,6 +373,26 @@ def KeyLabel : GoVal → Prop
   | .str b => utf8Valid b = true ∧ b.length < 18446744073709551616
   | _ => False
 
+instance : DecidablePred KeyLabel := fun l =>
+  match l with
+  | .int k n => inferInstanceAs (Decidable (k = .i64 ∧ int64Range n))
+  | .str b => inferInstanceAs (Decidable (utf8Valid b = true ∧ b.length < 18446744073709551616))
+  | .nil => isFalse (fun h => h)
+  | .alg _ => isFalse (fun h => h)
+  | .crv _ => isFalse (fun h => h)
+  | .bytes _ => isFalse (fun h => h)
+  | .bytesNil => isFalse (fun h => h)
+  | .bool _ => isFalse (fun h => h)
+  | .simple _ => isFalse (fun h => h)
+  | .float _ => isFalse (fun h => h)
+  | .arr _ => isFalse (fun h => h)
+  | .map _ => isFalse (fun h => h)
+  | .csig .. => isFalse (fun h => h)
+  | .csigNil => isFalse (fun h => h)
+  | .csigs _ => isFalse (fun h => h)
+  | .csigsNil => isFalse (fun h => h)
+  | .opaque => isFalse (fun h => h)
+
 theorem KeyLabel.flat {l : GoVal} (h : KeyLabel l) : FlatLabel l := by
   cases l <;> simp only [KeyLabel] at h <;> simp only [FlatLabel]
   · exact h.2
@@ -282,6 +410,8 @@ theorem keyLabel_lbl (n : Int) (h : int64Range n) : KeyLabel (lbl n) := ⟨rfl, 
 
 /-- the map holds key labels and key values -/
 def KeyMap (h : GoMap) : Prop := ∀ e ∈ h, KeyLabel e.1 ∧ KVal e.2
+
+instance (h : GoMap) : Decidable (KeyMap h) := by unfold KeyMap; exact inferInstance
 
 theorem KeyMap.kmap {h : GoMap} (hf : KeyMap h) : KMap h :=
   fun e he => ⟨(hf e he).1.flat, (hf e he).2⟩
@@ -713,6 +843,44 @@ def ParamsDisjoint (k : Key) : Prop :=
   k.params.lookup (lbl 3) = none ∧ k.params.lookup (lbl 4) = none ∧
   k.params.lookup (lbl 5) = none
 
+instance (k : Key) : Decidable (KeySize k) := by unfold KeySize; exact inferInstance
+
+instance (k : Key) : Decidable (ParamsDisjoint k) := by unfold ParamsDisjoint; exact inferInstance
+
+/-- `KeyFlat` as a conjunction of decidable checks -/
+def keyFlatB (k : Key) : Prop :=
+  int64Range k.kty ∧ int64Range k.alg ∧
+  (match k.id with | some b => b.length < 18446744073709551616 | none => True) ∧
+  (match k.ops with | some l => (∀ o ∈ l, int64Range o) ∧ l.length ≤ maxElems | none => True) ∧
+  (match k.baseIV with | some b => b.length < 18446744073709551616 | none => True) ∧
+  KeyMap k.params
+
+instance (k : Key) : Decidable (keyFlatB k) := by
+  unfold keyFlatB
+  cases k.id <;> cases k.ops <;> cases k.baseIV <;> exact inferInstance
+
+theorem keyFlat_iff (k : Key) : KeyFlat k ↔ keyFlatB k := by
+  unfold keyFlatB
+  constructor
+  · intro h
+    refine ⟨h.kty, h.alg, ?_, ?_, ?_, h.params⟩
+    · cases hid : k.id with
+      | none => trivial
+      | some b => exact h.id b hid
+    · cases ho : k.ops with
+      | none => trivial
+      | some l => exact h.ops l ho
+    · cases hb : k.baseIV with
+      | none => trivial
+      | some b => exact h.baseIV b hb
+  · intro ⟨h1, h2, h3, h4, h5, h6⟩
+    refine { kty := h1, alg := h2, id := ?_, ops := ?_, baseIV := ?_, params := h6 }
+    · intro b hb; rw [hb] at h3; exact h3
+    · intro l hl; rw [hl] at h4; exact h4
+    · intro b hb; rw [hb] at h5; exact h5
+
+instance (k : Key) : Decidable (KeyFlat k) := decidable_of_iff _ (keyFlat_iff k).symm
+
 theorem int64Range_small (n : Int) (h1 : -100 ≤ n) (h2 : n ≤ 100) : int64Range n := by
   unfold int64Range; omega
 
@@ -1134,11 +1302,66 @@ theorem go_some : ∀ (r : GoMap) (seen : List GoVal) (acc : GoMap),
     rw [List.any_cons, hs e (List.mem_cons_of_mem _ he), Bool.or_false]
     exact hp.1 e he l e.1 hl (hn e (List.mem_cons_of_mem _ he))
 
+/-- labels already seen do not occur again in a successful run of the parameter loop -/
+theorem go_seen_fresh : ∀ (r : GoMap) (seen : List GoVal) (acc m0 : GoMap),
+    Key.marshalMap.go r seen acc = some m0 → ∀ s ∈ seen, ∀ e ∈ r, ∀ b,
+    normalizeLabel e.1 = some b → s.keyEq b = false
+  | [], _, _, _, _, _, _, _, he, _, _ => by cases he
+  | (l, v) :: r, seen, acc, m0, h, s, hs, e, he, b, hb => by
+    unfold Key.marshalMap.go at h
+    split at h
+    · cases h
+    · rename_i nl hnl
+      split at h
+      · cases h
+      · rename_i hany
+        rcases List.mem_cons.mp he with rfl | hm
+        · simp only at hb
+          rw [hnl] at hb
+          cases hb
+          cases hq : s.keyEq b with
+          | false => rfl
+          | true => exact absurd (List.any_eq_true.mpr ⟨s, hs, hq⟩) hany
+        · exact go_seen_fresh r (nl :: seen) _ m0 h s (List.mem_cons_of_mem _ hs) e hm b hb
+
+/-- … and only on pairwise distinct labels -/
+theorem go_distinct : ∀ (r : GoMap) (seen : List GoVal) (acc m0 : GoMap),
+    Key.marshalMap.go r seen acc = some m0 → r.Pairwise LabelDistinct
+  | [], _, _, _, _ => List.Pairwise.nil
+  | (l, v) :: r, seen, acc, m0, h => by
+    unfold Key.marshalMap.go at h
+    split at h
+    · cases h
+    · rename_i nl hnl
+      split at h
+      · cases h
+      · rw [List.pairwise_cons]
+        refine ⟨?_, go_distinct r _ _ m0 h⟩
+        intro e he a b ha hb
+        simp only at ha
+        rw [hnl] at ha
+        cases ha
+        exact go_seen_fresh r (nl :: seen) _ m0 h nl (List.mem_cons_self ..) e he b hb
+
 theorem marshalMap_some (k : Key) (hn : ∀ e ∈ k.params, normalizeLabel e.1 = some e.1)
     (hok : LabelsOK k.params) : ∃ m, k.marshalMap = some m := by
   obtain ⟨m0, h0⟩ := go_some k.params [] (baseMap k) hn hok.2 (fun _ _ => rfl)
   rw [marshalMap_eq, h0]
   exact ⟨_, rfl⟩
+
+theorem retype_kval (kty : Int) (l : GoVal) {v : GoVal} (hv : KVal v) : KVal (retypeVal kty l v) := by
+  unfold retypeVal
+  split
+  · split
+    · simp only [KVal] at hv ⊢; exact hv
+    · exact hv
+  · exact hv
+
+theorem KeyMap.normEntry {g : GoMap} (hkm : KeyMap g) : KeyMap (g.map kNormEntry) := by
+  intro e he
+  obtain ⟨e0, he0, rfl⟩ := List.mem_map.mp he
+  simp only [kNormEntry, (hkm e0 he0).1.normVal_eq]
+  exact ⟨(hkm e0 he0).1, kNorm_kVal (hkm e0 he0).2⟩
 
 /-- MAIN (map level): `Key.UnmarshalCBOR` on the decoded form of the map `Key.MarshalCBOR`
     built returns a key with the same common fields and the parameters of `wireParam` -/
@@ -1150,7 +1373,8 @@ theorem key_roundtrip_core (k : Key) (hk : KeyFlat k) (hd : ParamsDisjoint k)
       (∀ l, normalizeLabel l = some l → ¬ isCommon l → k'.params.lookup l = wireParam k l) ∧
       (∀ l, isCommon l → k'.params.lookup l = none) ∧
       (∀ n : Int, int64Range n → n < 0 → k'.pbytes n = wirePbytes k n) ∧
-      (k.kty = 1 ∨ k.kty = 2 → k'.crv = k.crv) := by
+      (k.kty = 1 ∨ k.kty = 2 → k'.crv = k.crv) ∧
+      KeyFlat k' ∧ k'.params.length ≤ k.params.length + 5 := by
   obtain ⟨hkm, hok, hlen⟩ := marshalMap_inv hk hm
   have hn := hk.params.normal
   have hwl := marshalMap_lookup k m hm hn
@@ -1261,7 +1485,28 @@ theorem key_roundtrip_core (k : Key) (hk : KeyFlat k) (hd : ParamsDisjoint k)
     cases k'
     simp only at e1 e2 e3 e4 e5
     rw [e1, e2, e3, e4, e5]
-  refine ⟨k', ?_, e1, e2, e3, e4, e5, e6, hplk, hplc, hpb, hcrv⟩
+  have hkm' : KeyMap ((sortEntries m).map kNormEntry) :=
+    KeyMap.normEntry (fun e he => hkm e (hsm e he))
+  have hf2 : KeyFlat k' := by
+    refine { kty := by rw [e1]; exact hk.kty, alg := by rw [e3]; exact hk.alg,
+             id := by rw [e2]; exact hk.id, ops := by rw [e4]; exact hk.ops,
+             baseIV := by rw [e5]; exact hk.baseIV, params := ?_ }
+    rw [e6]
+    intro e he
+    obtain ⟨e0, he0, rfl⟩ := List.mem_map.mp he
+    have := hkm' e0 (mem_erase5 he0)
+    exact ⟨this.1, retype_kval _ _ this.2⟩
+  have hlen2 : k'.params.length ≤ k.params.length + 5 := by
+    rw [e6, List.length_map]
+    have h1 : (erase5 ((sortEntries m).map kNormEntry)).length
+        ≤ ((sortEntries m).map kNormEntry).length := by
+      unfold erase5 GoMap.erase
+      exact Nat.le_trans (List.length_filter_le _ _) (Nat.le_trans (List.length_filter_le _ _)
+        (Nat.le_trans (List.length_filter_le _ _) (Nat.le_trans (List.length_filter_le _ _)
+          (List.length_filter_le _ _))))
+    rw [List.length_map, sortEntries_length] at h1
+    omega
+  refine ⟨k', ?_, e1, e2, e3, e4, e5, e6, hplk, hplc, hpb, hcrv, hf2, hlen2⟩
   rw [hk'eq]
   rw [hk'eq] at hv'
   exact ofMap_ok _ k.kty k.id k.alg k.ops k.baseIV k'.params c1 hkz c2' c3' c4' c5' hkp hv'
@@ -1318,6 +1563,18 @@ end KeyRT
 namespace C14
 open KeyRT RoundTrip
 
+/-- `wireParam` spelt out for a parameter label: the parameter of `k` itself — x / y of an EC2 key
+    left-padded — as the decoder types it, the curve retyped -/
+theorem wireParam_eq (k : Key) (l : GoVal) (hc : ¬ isCommon l) :
+    wireParam k l =
+      (if k.kty = 2 ∧ ((lbl (-2)).keyEq l = true ∨ (lbl (-3)).keyEq l = true)
+        then (k.params.lookup l).map (padVal (curveSize k.crv)) else k.params.lookup l).map
+        (fun v => retypeVal k.kty l (kNorm v)) := by
+  have eta : ∀ o : Option GoVal, (match o with | some v => some v | none => none) = o := by
+    intro o; cases o <;> rfl
+  unfold wireParam wireLookup
+  simp only [baseMap_lookup_other k l hc, eta]
+
 /-- 1. MAIN: for a key of the flat data model whose parameters avoid the labels of the common
     fields and which `validate` accepts, `UnmarshalCBOR(MarshalCBOR(k))` succeeds and returns the
     same kty, kid, alg, key_ops and Base IV (exactly — no nil/empty normalisation occurs in the
@@ -1332,13 +1589,46 @@ theorem key_marshal_unmarshal (k : Key) (hk : KeyFlat k) (hs : KeySize k) (hd : 
       (∀ l, isCommon l → k'.params.lookup l = none) ∧
       (∀ n : Int, int64Range n → n < 0 → k'.pbytes n = wirePbytes k n) ∧
       (k.kty = 1 ∨ k.kty = 2 → k'.crv = k.crv) ∧
-      k'.validate .none = none := by
+      k'.validate .none = none ∧ KeyFlat k' ∧ k'.params.length ≤ k.params.length + 5 := by
   obtain ⟨m, hm, rfl⟩ := (marshal_bytes hk b).mp hb
   obtain ⟨hkm, hok, hlen⟩ := marshalMap_inv hk hm
-  obtain ⟨k', h0, h1, h2, h3, h4, h5, _, h7, h8, h9, h10⟩ := key_roundtrip_core k hk hd hv m hm
-  refine ⟨k', ?_, h1, h2, h3, h4, h5, h7, h8, h9, h10, (C15.ofMap_inv _ k' h0).2.1⟩
+  obtain ⟨k', h0, h1, h2, h3, h4, h5, _, h7, h8, h9, h10, h11, h12⟩ :=
+    key_roundtrip_core k hk hd hv m hm
+  refine ⟨k', ?_, h1, h2, h3, h4, h5, h7, h8, h9, h10, (C15.ofMap_inv _ k' h0).2.1, h11, h12⟩
   rw [unmarshal_bytes hkm.kmap hok (Nat.le_trans hlen hs)]
   exact h0
+
+/-- 1'. the same, for one parameter that is not an EC2 coordinate: it comes back under its label
+    as the decoder types it (curve retyped) -/
+theorem key_param_roundtrip (k : Key) (hk : KeyFlat k) (hs : KeySize k) (hd : ParamsDisjoint k)
+    (hv : k.validate .none = none) (b : Bytes) (hb : k.marshal = .ok b) (k' : Key)
+    (hu : Key.unmarshal b = .ok k') (l v : GoVal) (hm : (l, v) ∈ k.params)
+    (hxy : k.kty = 2 → l ≠ lbl (-2) ∧ l ≠ lbl (-3)) :
+    k'.params.lookup l = some (retypeVal k.kty l (kNorm v)) := by
+  obtain ⟨k'', hu', _, _, _, _, _, hplk, _⟩ := key_marshal_unmarshal k hk hs hd hv b hb
+  rw [hu] at hu'
+  cases hu'
+  have hl := (hk.params _ hm).1.normalize
+  have hokp : LabelsOK k.params := by
+    obtain ⟨m, hmm, _⟩ := (marshal_bytes hk b).mp hb
+    rw [marshalMap_eq] at hmm
+    cases hgo : Key.marshalMap.go k.params [] (baseMap k) with
+    | none => rw [hgo] at hmm; cases hmm
+    | some m0 =>
+      refine ⟨fun e he => by rw [hk.params.normal e he]; simp, ?_⟩
+      exact go_distinct k.params [] (baseMap k) m0 hgo
+  have hlk : k.params.lookup l = some v := (lookup_iff_mem hokp hk.params.normal v).mpr hm
+  have hc : ¬ isCommon l := by
+    intro hc
+    obtain ⟨h1, h2, h3, h4, h5⟩ := hd
+    rcases hc with h | h | h | h | h <;> subst h <;> simp_all
+  rw [hplk l hl hc, wireParam_eq k l hc, if_neg, hlk]
+  · rfl
+  · intro ⟨h2, h⟩
+    obtain ⟨n2, n3⟩ := hxy h2
+    rcases h with h | h
+    · exact n2 ((lbl_keyEq_iff _ l).mp h)
+    · exact n3 ((lbl_keyEq_iff _ l).mp h)
 
 /-! ### keys built from Go keys -/
 
@@ -1447,7 +1737,7 @@ theorem ec2_key_wire_roundtrip (bits x y : Nat) (d : Option Nat) (k : Key)
   have hylt := lt_pow_of_natBytes_length_le _ _ hly
   obtain ⟨m, hm⟩ := keyFromEC_marshal_some bits x y d k hk
   have hb := marshal_of_marshalMap hflat hm
-  obtain ⟨k', hu, e1, e2, e3, e4, e5, _, _, hpb, hcr, hv'⟩ :=
+  obtain ⟨k', hu, e1, e2, e3, e4, e5, _, _, hpb, hcr, hv', _, _⟩ :=
     key_marshal_unmarshal k hflat hsize hdis hv _ hb
   have q2 : k'.pbytes (-2) = leftPad (curveSize (curveOfBits bits)) (natBytes x) := by
     rw [hpb (-2) (by decide) (by decide), wirePbytes, if_pos ⟨h2, Or.inl rfl⟩, hpx, hcrv]
@@ -1572,7 +1862,7 @@ theorem okp_key_wire_roundtrip (x : Bytes) (d : Option Bytes) (k : Key)
       ldis 5 (by decide)⟩
   obtain ⟨m, hm⟩ := marshalMap_some k hflat.params.normal (by rw [hpar]; exact edParams_labelsOK x d)
   have hb := marshal_of_marshalMap hflat hm
-  obtain ⟨k', hu, e1, e2, e3, e4, e5, _, _, hpb, hcr, hv'⟩ :=
+  obtain ⟨k', hu, e1, e2, e3, e4, e5, _, _, hpb, hcr, hv', _, _⟩ :=
     key_marshal_unmarshal k hflat hsize hdis hv _ hb
   have hne : ¬ (k.kty = 2 ∧ ((-2 : Int) = -2 ∨ (-2 : Int) = -3)) := fun h => by
     rw [h1] at h; exact absurd h.1 (by decide)
@@ -1854,12 +2144,6 @@ theorem lookup_kNormEntry {g : GoMap} (hkm : KeyMap g) (l : GoVal) :
     simp only [kNormEntry, (hkm e he).1.normVal_eq]
   rw [this, lookup_map_snd]
 
-theorem KeyMap.normEntry {g : GoMap} (hkm : KeyMap g) : KeyMap (g.map kNormEntry) := by
-  intro e he
-  obtain ⟨e0, he0, rfl⟩ := List.mem_map.mp he
-  simp only [kNormEntry, (hkm e0 he0).1.normVal_eq]
-  exact ⟨(hkm e0 he0).1, kNorm_kVal (hkm e0 he0).2⟩
-
 theorem labelsOK_kNormEntry {g : GoMap} (hkm : KeyMap g) (hok : LabelsOK g) :
     LabelsOK (g.map kNormEntry) := by
   have : normLabels (g.map kNormEntry) = normLabels g := by
@@ -1875,14 +2159,6 @@ theorem baseMap_congr (k k2 : Key) (e1 : k2.kty = k.kty) (e2 : k2.id = k.id) (e3
     (e4 : k2.ops = k.ops) (e5 : k2.baseIV = k.baseIV) : baseMap k2 = baseMap k := by
   unfold baseMap
   rw [e1, e2, e3, e4, e5]
-
-theorem retype_kval (kty : Int) (l : GoVal) {v : GoVal} (hv : KVal v) : KVal (retypeVal kty l v) := by
-  unfold retypeVal
-  split
-  · split
-    · simp only [KVal] at hv ⊢; exact hv
-    · exact hv
-  · exact hv
 
 theorem padVal_nonbytes_norm (s : Nat) (v : GoVal) (h : ∀ b, v ≠ .bytes b) :
     padVal s (kNorm v) = kNorm v := by
@@ -1942,7 +2218,7 @@ theorem wireLookup_roundtrip (k k2 : Key) (hd : ParamsDisjoint k)
     unfold wireParam
     rw [w1]
     by_cases hcond : k.kty = 2 ∧ ((lbl (-2)).keyEq l = true ∨ (lbl (-3)).keyEq l = true)
-    · rw [if_pos hcond, hcrv (Or.inr hcond.1)]
+    · simp only [if_pos hcond, hcrv (Or.inr hcond.1)]
       have hl1 : (lbl (-1)).keyEq l = false := by
         rcases hcond.2 with h | h <;> rw [(lbl_keyEq_iff _ l).mp h] <;> simp [C14.keyEq_lbl_lbl]
       cases k.params.lookup l with
@@ -1950,7 +2226,7 @@ theorem wireLookup_roundtrip (k k2 : Key) (hd : ParamsDisjoint k)
       | some v =>
         simp only [Option.map_some]
         rw [pad_cycle _ _ _ _ hl1]
-    · rw [if_neg hcond]
+    · simp only [if_neg hcond]
       cases k.params.lookup l with
       | none => rfl
       | some v =>
@@ -1960,7 +2236,7 @@ theorem wireLookup_roundtrip (k k2 : Key) (hd : ParamsDisjoint k)
 /-- MAIN (fixpoint): a flat key accepted by `UnmarshalCBOR` re-encodes, the re-encoding decodes
     again, and encoding that key reproduces the same bytes -/
 theorem reencode_core (b : Bytes) (k : Key) (hu : Key.unmarshal b = .ok k) (hf : KeyFlat k)
-    (hs : KeySize k) :
+    (hs : ∀ m, k.marshalMap = some m → m.length ≤ maxElems) :
     ∃ m k2, k.marshalMap = some m ∧ k.marshal = .ok (kMapWire m).bytes ∧
       Key.unmarshal (kMapWire m).bytes = .ok k2 ∧ k2.marshal = .ok (kMapWire m).bytes ∧
       k2.kty = k.kty ∧ k2.id = k.id ∧ k2.alg = k.alg ∧ k2.ops = k.ops ∧ k2.baseIV = k.baseIV ∧
@@ -1972,22 +2248,11 @@ theorem reencode_core (b : Bytes) (k : Key) (hu : Key.unmarshal b = .ok k) (hf :
   have hokp : LabelsOK k.params := labelsOK_of_keyMap_pairwise hf.params.normal hpw
   obtain ⟨m, hm⟩ := marshalMap_some k hf.params.normal hokp
   obtain ⟨hkm, hok, hlen⟩ := marshalMap_inv hf hm
-  obtain ⟨k2, h0, e1, e2, e3, e4, e5, e6, hplk, hplc, hpb, hcrv⟩ :=
+  obtain ⟨k2, h0, e1, e2, e3, e4, e5, e6, hplk, hplc, hpb, hcrv, hf2, _⟩ :=
     key_roundtrip_core k hf hd hv m hm
   have hb := C14.marshal_of_marshalMap hf hm
   have hu2 : Key.unmarshal (kMapWire m).bytes = .ok k2 := by
-    rw [unmarshal_bytes hkm.kmap hok (Nat.le_trans hlen hs)]; exact h0
-  have hkm' : KeyMap ((sortEntries m).map kNormEntry) :=
-    KeyMap.normEntry (fun e he => hkm e ((sortEntries_perm m).mem_iff.mp he))
-  have hf2 : KeyFlat k2 := by
-    refine { kty := by rw [e1]; exact hf.kty, alg := by rw [e3]; exact hf.alg,
-             id := by rw [e2]; exact hf.id, ops := by rw [e4]; exact hf.ops,
-             baseIV := by rw [e5]; exact hf.baseIV, params := ?_ }
-    rw [e6]
-    intro e he
-    obtain ⟨e0, he0, rfl⟩ := List.mem_map.mp he
-    have := hkm' e0 (mem_erase5 he0)
-    exact ⟨this.1, retype_kval _ _ this.2⟩
+    rw [unmarshal_bytes hkm.kmap hok (hs m hm)]; exact h0
   obtain ⟨hpw2, _, _⟩ := accepted_params _ k2 hu2
   have hokp2 : LabelsOK k2.params := labelsOK_of_keyMap_pairwise hf2.params.normal hpw2
   obtain ⟨m2, hm2⟩ := marshalMap_some k2 hf2.params.normal hokp2
@@ -2010,3 +2275,678 @@ theorem reencode_core (b : Bytes) (k : Key) (hu : Key.unmarshal b = .ok k) (hf :
   exact ⟨m, k2, hm, hb, hu2, hb2, e1, e2, e3, e4, e5, hplk, hplc, hpb, hcrv, hf2⟩
 
 end KeyRT
+
+/-! ## H. what the decoder guarantees about an accepted key -/
+
+namespace KeyRT
+open RoundTrip
+
+theorem fits_lt {w : HW} {n : Nat} (h : w.fits n = true) : n < 18446744073709551616 := by
+  cases w <;> simp only [HW.fits, decide_eq_true_eq] at h <;> omega
+
+/-- decoded integers are `int64` in range -/
+theorem dec_int {w : Wire} {kd : IntKind} {n : Int} (h : decodeAny w = .ok (.int kd n)) :
+    kd = .i64 ∧ int64Range n := by
+  unfold int64Range
+  cases w
+  case uint hw a =>
+    simp only [decodeAny] at h
+    split at h
+    · rename_i hle
+      cases h
+      unfold maxInt64 at hle
+      exact ⟨rfl, by omega, by omega⟩
+    · cases h
+  case nint hw a =>
+    simp only [decodeAny] at h
+    split at h
+    · rename_i hle
+      cases h
+      unfold maxInt64 at hle
+      exact ⟨rfl, by omega, by omega⟩
+    · cases h
+  case bstr => simp only [decodeAny] at h; cases h
+  case tstr => simp only [decodeAny] at h; split at h <;> cases h
+  case tag => simp only [decodeAny] at h; cases h
+  case arr => simp only [decodeAny] at h; split at h <;> cases h
+  case map => simp only [decodeAny] at h; split at h <;> cases h
+  case prim hw a =>
+    cases hw <;> simp only [decodeAny] at h
+    · split at h
+      · cases h
+      · split at h
+        · cases h
+        · split at h <;> cases h
+    all_goals cases h
+
+theorem dec_bytes {w : Wire} {b : Bytes} (h : decodeAny w = .ok (.bytes b)) (hwf : w.wf = true) :
+    b.length < 18446744073709551616 := by
+  cases w
+  case bstr hw c =>
+    simp only [decodeAny] at h
+    cases h
+    exact fits_lt (by simpa [Wire.wf] using hwf)
+  case uint => simp only [decodeAny] at h; split at h <;> cases h
+  case nint => simp only [decodeAny] at h; split at h <;> cases h
+  case tstr => simp only [decodeAny] at h; split at h <;> cases h
+  case tag => simp only [decodeAny] at h; cases h
+  case arr => simp only [decodeAny] at h; split at h <;> cases h
+  case map => simp only [decodeAny] at h; split at h <;> cases h
+  case prim hw a =>
+    cases hw <;> simp only [decodeAny] at h
+    · split at h
+      · cases h
+      · split at h
+        · cases h
+        · split at h <;> cases h
+    all_goals cases h
+
+theorem dec_str {w : Wire} {s : Bytes} (h : decodeAny w = .ok (.str s)) (hwf : w.wf = true) :
+    utf8Valid s = true ∧ s.length < 18446744073709551616 := by
+  cases w
+  case tstr hw c =>
+    simp only [decodeAny] at h
+    split at h
+    · rename_i hu
+      cases h
+      exact ⟨hu, fits_lt (by simpa [Wire.wf] using hwf)⟩
+    · cases h
+  case uint => simp only [decodeAny] at h; split at h <;> cases h
+  case nint => simp only [decodeAny] at h; split at h <;> cases h
+  case bstr => simp only [decodeAny] at h; cases h
+  case tag => simp only [decodeAny] at h; cases h
+  case arr => simp only [decodeAny] at h; split at h <;> cases h
+  case map => simp only [decodeAny] at h; split at h <;> cases h
+  case prim hw a =>
+    cases hw <;> simp only [decodeAny] at h
+    · split at h
+      · cases h
+      · split at h
+        · cases h
+        · split at h <;> cases h
+    all_goals cases h
+
+theorem wfList_mem : ∀ {xs : List Wire}, Wire.wfList xs = true → ∀ x ∈ xs, x.wf = true
+  | [], _, _, hx => by cases hx
+  | y :: ys, h, x, hx => by
+    simp only [Wire.wfList, Bool.and_eq_true] at h
+    rcases List.mem_cons.mp hx with rfl | hm
+    · exact h.1
+    · exact wfList_mem h.2 x hm
+
+theorem wfPairs_mem : ∀ {kvs : List (Wire × Wire)}, Wire.wfPairs kvs = true →
+    ∀ p ∈ kvs, p.1.wf = true ∧ p.2.wf = true
+  | [], _, _, hp => by cases hp
+  | (a, b) :: r, h, p, hp => by
+    simp only [Wire.wfPairs, Bool.and_eq_true] at h
+    rcases List.mem_cons.mp hp with rfl | hm
+    · exact ⟨h.1.1, h.1.2⟩
+    · exact wfPairs_mem h.2 p hm
+
+theorem decodeList_inv : ∀ (xs : List Wire) (l : List GoVal), decodeList xs = .ok l →
+    l.length = xs.length ∧ ∀ v ∈ l, ∃ x ∈ xs, decodeAny x = .ok v
+  | [], l, h => by
+    simp only [decodeList, Out.ok.injEq] at h
+    subst h
+    exact ⟨rfl, fun v hv => by cases hv⟩
+  | x :: xs, l, h => by
+    unfold decodeList at h
+    split at h <;> try (cases h; done)
+    rename_i a bs ha hb
+    cases h
+    obtain ⟨ih1, ih2⟩ := decodeList_inv xs bs hb
+    refine ⟨by simp [ih1], ?_⟩
+    intro v hv
+    rcases List.mem_cons.mp hv with rfl | hm
+    · exact ⟨x, List.mem_cons_self .., ha⟩
+    · obtain ⟨y, hy, hd⟩ := ih2 v hm
+      exact ⟨y, List.mem_cons_of_mem _ hy, hd⟩
+
+/-- a decoded array: as long as the array item, every element decoded from a well-formed item -/
+theorem dec_arr {w : Wire} {l : List GoVal} (h : decodeAny w = .ok (.arr l)) (hwf : w.wf = true)
+    (t : Bool) (d : Nat) (hlim : w.inLimits t d = true) :
+    l.length ≤ maxElems ∧ ∀ v ∈ l, ∃ x, x.wf = true ∧ decodeAny x = .ok v := by
+  cases w
+  case arr hw xs =>
+    simp only [decodeAny] at h
+    split at h <;> try (cases h; done)
+    rename_i l' hl
+    cases h
+    obtain ⟨h1, h2⟩ := decodeList_inv xs l hl
+    simp only [Wire.wf, Bool.and_eq_true] at hwf
+    simp only [Wire.inLimits, Bool.and_eq_true, decide_eq_true_eq] at hlim
+    refine ⟨by rw [h1]; exact hlim.1.2, ?_⟩
+    intro v hv
+    obtain ⟨x, hx, hd⟩ := h2 v hv
+    exact ⟨x, wfList_mem hwf.2 x hx, hd⟩
+  case uint => simp only [decodeAny] at h; split at h <;> cases h
+  case nint => simp only [decodeAny] at h; split at h <;> cases h
+  case bstr => simp only [decodeAny] at h; cases h
+  case tstr => simp only [decodeAny] at h; split at h <;> cases h
+  case tag => simp only [decodeAny] at h; cases h
+  case map => simp only [decodeAny] at h; split at h <;> cases h
+  case prim hw a =>
+    cases hw <;> simp only [decodeAny] at h
+    · split at h
+      · cases h
+      · split at h
+        · cases h
+        · split at h <;> cases h
+    all_goals cases h
+
+/-- every decoded entry comes from a wire pair; nothing is dropped -/
+theorem decodePairs_mem : ∀ (kvs : List (Wire × Wire)) (acc tmp : GoMap),
+    decodePairs kvs acc = .ok tmp →
+    tmp.length = acc.length + kvs.length ∧
+    ∀ e ∈ tmp, e ∈ acc ∨ ∃ p ∈ kvs, decodeAny p.1 = .ok e.1 ∧ decodeAny p.2 = .ok e.2
+  | [], acc, tmp, h => by
+    simp only [decodePairs, Out.ok.injEq] at h
+    subst h
+    exact ⟨by simp, fun e he => Or.inl (List.mem_reverse.mp he)⟩
+  | (k, v) :: r, acc, tmp, h => by
+    unfold decodePairs at h
+    split at h
+    · rename_i key hk
+      split at h
+      · cases h
+      · cases h
+      · split at h
+        · cases h
+        · split at h
+          · rename_i value hv
+            split at h
+            · cases h
+            · obtain ⟨ih1, ih2⟩ := decodePairs_mem r _ tmp h
+              refine ⟨by rw [ih1]; simp only [List.length_cons]; omega, ?_⟩
+              intro e he
+              rcases ih2 e he with h1 | ⟨p, hp, hd⟩
+              · rcases List.mem_cons.mp h1 with rfl | h2
+                · exact Or.inr ⟨(k, v), List.mem_cons_self .., hk, hv⟩
+                · exact Or.inl h2
+              · exact Or.inr ⟨p, List.mem_cons_of_mem _ hp, hd⟩
+          · cases h
+          · cases h
+          · cases h
+    · cases h
+    · cases h
+    · cases h
+
+theorem keyOp_range (s : Bytes) (v : Int) (h : keyOpFromString s = some v) : int64Range v := by
+  unfold keyOpFromString at h
+  unfold int64Range
+  repeat' (split at h)
+  all_goals first | (cases h; omega) | cases h
+
+theorem decodeOps_range : ∀ (l : List GoVal) (o : List Int), decodeOps l = some o →
+    (∀ x ∈ l, ∀ n, x = .int .i64 n → int64Range n) →
+    (∀ x ∈ o, int64Range x) ∧ o.length = l.length
+  | [], o, h, _ => by
+    simp only [decodeOps, Option.some.injEq] at h
+    subst h
+    exact ⟨fun x hx => (by cases hx), rfl⟩
+  | x :: r, o, h, hr => by
+    unfold decodeOps at h
+    split at h
+    · rename_i heq
+      cases heq
+    · rename_i v r' heq
+      cases heq
+      cases hd : decodeOps r with
+      | none => rw [hd] at h; cases h
+      | some o' =>
+        rw [hd] at h
+        simp only [Option.map_some, Option.some.injEq] at h
+        subst h
+        obtain ⟨ih1, ih2⟩ := decodeOps_range r o' hd (fun y hy => hr y (List.mem_cons_of_mem _ hy))
+        refine ⟨?_, by simp [ih2]⟩
+        intro y hy
+        rcases List.mem_cons.mp hy with rfl | hm
+        · exact hr _ (List.mem_cons_self ..) _ rfl
+        · exact ih1 y hm
+    · rename_i s r' heq
+      cases heq
+      split at h
+      · rename_i v o' hv hd
+        cases h
+        obtain ⟨ih1, ih2⟩ := decodeOps_range r o' hd (fun y hy => hr y (List.mem_cons_of_mem _ hy))
+        refine ⟨?_, by simp [ih2]⟩
+        intro y hy
+        rcases List.mem_cons.mp hy with rfl | hm
+        · exact keyOp_range s _ hv
+        · exact ih1 y hm
+      · cases h
+    · cases h
+
+theorem paramBytes_some {tmp : GoMap} {n : Int} {b : Bytes}
+    (h : (paramBytes tmp n).getD none = some b) : tmp.lookup (lbl n) = some (.bytes b) := by
+  unfold paramBytes at h
+  cases hl : tmp.lookup (lbl n) with
+  | none => rw [hl] at h; cases h
+  | some v =>
+    rw [hl] at h
+    cases v <;> simp only [Lk.getD] at h <;> try (cases h; done)
+    case bytes c => cases h; rfl
+
+/-- the common fields of an accepted key, read off the decoded map -/
+theorem ofMap_fields (tmp : GoMap) (k : Key) (h : Key.ofMap tmp = .ok k) :
+    (∀ b, k.id = some b → tmp.lookup (lbl 2) = some (.bytes b)) ∧
+    (k.alg ≠ 0 → tmp.lookup (lbl 3) = some (.int .i64 k.alg)) ∧
+    (∀ o, k.ops = some o → ∃ l, tmp.lookup (lbl 4) = some (.arr l) ∧ decodeOps l = some o) ∧
+    (∀ b, k.baseIV = some b → tmp.lookup (lbl 5) = some (.bytes b)) := by
+  unfold Key.ofMap at h
+  split at h
+  · rename_i kty hl
+    by_cases hz : kty = 0
+    · simp [hz] at h
+    · simp only [hz, if_false] at h
+      split at h <;> try (cases h)
+      split at h
+      · cases h
+      · rename_i params hp
+        split at h
+        · cases h
+        · cases h
+          refine ⟨fun b hb => paramBytes_some hb, ?_, ?_, fun b hb => paramBytes_some hb⟩
+          · intro ha
+            simp only [] at ha ⊢
+            cases h3 : tmp.lookup (lbl 3) with
+            | none => rw [h3] at ha; exact absurd rfl ha
+            | some v =>
+              rw [h3] at ha
+              cases v <;> try (exact absurd rfl ha)
+              case int kd a =>
+                cases kd <;> first | (exact absurd rfl ha) | rfl
+          · intro o ho
+            simp only [] at ho
+            cases h4 : tmp.lookup (lbl 4) with
+            | none => rw [h4] at ho; cases ho
+            | some v =>
+              rw [h4] at ho
+              cases v <;> try (cases ho; done)
+              case arr l =>
+                refine ⟨l, rfl, ?_⟩
+                simp only [] at ho
+                cases hd : decodeOps l with
+                | none => rw [hd] at ho; cases ho
+                | some o' => rw [hd] at ho; exact ho
+  · cases h
+
+theorem inLimitsPairs_mem (t : Bool) (d : Nat) : ∀ {kvs : List (Wire × Wire)},
+    Wire.inLimitsPairs t d kvs = true → ∀ p ∈ kvs, p.1.inLimits t d = true ∧ p.2.inLimits t d = true
+  | [], _, _, hp => by cases hp
+  | (a, b) :: r, h, p, hp => by
+    simp only [Wire.inLimitsPairs, Bool.and_eq_true] at h
+    rcases List.mem_cons.mp hp with rfl | hm
+    · exact ⟨h.1.1, h.1.2⟩
+    · exact inLimitsPairs_mem t d h.2 p hm
+
+theorem lookup_erase5_some (tmp : GoMap) (l : GoVal) (h : (erase5 tmp).lookup l ≠ none) :
+    tmp.lookup l ≠ none := by
+  intro hn
+  apply h
+  unfold erase5
+  exact lookup_erase_none _ _ _ (lookup_erase_none _ _ _ (lookup_erase_none _ _ _
+    (lookup_erase_none _ _ _ (lookup_erase_none _ _ _ hn))))
+
+theorem keys_nodup {g : GoMap} (hok : LabelsOK g) (hn : ∀ e ∈ g, normalizeLabel e.1 = some e.1) :
+    (g.map Prod.fst).Nodup := by
+  have hp' : g.Pairwise (fun a b => a ∈ g ∧ b ∈ g ∧ LabelDistinct a b) := by
+    have := hok.2
+    rw [List.pairwise_iff_forall_sublist] at this ⊢
+    intro a b hs
+    exact ⟨hs.subset (List.mem_cons_self ..),
+      hs.subset (List.mem_cons_of_mem _ (List.mem_cons_self ..)), this hs⟩
+  unfold List.Nodup
+  rw [List.pairwise_map]
+  refine hp'.imp ?_
+  intro a b ⟨ha, hb, hab⟩ heq
+  have h1 := hab a.1 b.1 (hn a ha) (hn b hb)
+  rw [heq, keyEq_refl_of_normalizes (by rw [hn b hb]; simp)] at h1
+  cases h1
+
+/-- everything `KeyFlat` asks of the common fields and of the labels holds of any accepted key:
+    the generic decoder only produces `int64` integers in range, valid text, and byte strings and
+    arrays within the CBOR length limits.  What remains open is the shape of the parameter
+    values. -/
+theorem accepted_flat (b : Bytes) (k : Key) (hu : Key.unmarshal b = .ok k)
+    (hvals : ∀ e ∈ k.params, KVal e.2) :
+    KeyFlat k ∧ ∀ m, k.marshalMap = some m → m.length ≤ maxElems := by
+  obtain ⟨w, kvs, tmp, hp, hd, ho⟩ := unmarshal_inv b k hu
+  obtain ⟨_, hwf, hlim⟩ := parseTop_sound hp
+  simp only [Wire.wf, Bool.and_eq_true] at hwf
+  simp only [Wire.inLimits, Bool.and_eq_true, decide_eq_true_eq] at hlim
+  obtain ⟨hlen_tmp, hmem⟩ := decodePairs_mem kvs [] tmp hd
+  have src : ∀ e ∈ tmp, ∃ p ∈ kvs, decodeAny p.1 = .ok e.1 ∧ decodeAny p.2 = .ok e.2 ∧
+      p.1.wf = true ∧ p.2.wf = true ∧ p.2.inLimits true 1 = true := by
+    intro e he
+    rcases hmem e he with h | ⟨p, hp, h1, h2⟩
+    · cases h
+    · exact ⟨p, hp, h1, h2, (wfPairs_mem hwf.2 p hp).1, (wfPairs_mem hwf.2 p hp).2,
+        (inLimitsPairs_mem true 1 hlim.2 p hp).2⟩
+  have vsrc : ∀ l v, tmp.lookup l = some v →
+      ∃ x : Wire, decodeAny x = .ok v ∧ x.wf = true ∧ x.inLimits true 1 = true := by
+    intro l v hl
+    obtain ⟨e, he, _, hv⟩ := lookup_some_mem hl
+    obtain ⟨p, _, _, h2, _, h4, h5⟩ := src e he
+    exact ⟨p.2, by rw [h2, hv], h4, h5⟩
+  obtain ⟨hpar, hkty⟩ := ofMap_params tmp k ho
+  obtain ⟨fid, falg, fops, fbiv⟩ := ofMap_fields tmp k ho
+  have hpe := keyParams_inv _ _ _ hpar
+  have hflat : KeyFlat k := by
+    refine { kty := ?_, alg := ?_, id := ?_, ops := ?_, baseIV := ?_, params := ?_ }
+    · obtain ⟨x, hx, _, _⟩ := vsrc _ _ hkty
+      exact (dec_int hx).2
+    · by_cases ha : k.alg = 0
+      · rw [ha]; decide
+      · obtain ⟨x, hx, _, _⟩ := vsrc _ _ (falg ha)
+        exact (dec_int hx).2
+    · intro c hc
+      obtain ⟨x, hx, hxw, _⟩ := vsrc _ _ (fid c hc)
+      exact dec_bytes hx hxw
+    · intro o ho'
+      obtain ⟨l, hl, hdo⟩ := fops o ho'
+      obtain ⟨x, hx, hxw, hxl⟩ := vsrc _ _ hl
+      obtain ⟨h1, h2⟩ := dec_arr hx hxw true 1 hxl
+      obtain ⟨r1, r2⟩ := decodeOps_range l o hdo (by
+        intro y hy n hyn
+        obtain ⟨z, _, hz⟩ := h2 y hy
+        rw [hyn] at hz
+        exact (dec_int hz).2)
+      exact ⟨r1, by rw [r2]; exact h1⟩
+    · intro c hc
+      obtain ⟨x, hx, hxw, _⟩ := vsrc _ _ (fbiv c hc)
+      exact dec_bytes hx hxw
+    · intro e he
+      refine ⟨?_, hvals e he⟩
+      have hlab := C15.keyParams_labels k.kty _ _ hpar e he
+      rw [hpe] at he
+      obtain ⟨e0, he0, rfl⟩ := List.mem_map.mp he
+      obtain ⟨p, _, h1, _, hw1, _, _⟩ := src e0 (mem_erase5 he0)
+      simp only [retypeEntry] at hlab ⊢
+      rcases hlab with ⟨n, hn⟩ | ⟨s, hs⟩
+      · rw [hn] at h1 ⊢
+        exact ⟨rfl, (dec_int h1).2⟩
+      · rw [hs] at h1 ⊢
+        exact dec_str h1 hw1
+  refine ⟨hflat, ?_⟩
+  intro m hm
+  obtain ⟨hkm, hok, _⟩ := marshalMap_inv hflat hm
+  have hsub : m.map Prod.fst ⊆ tmp.map Prod.fst := by
+    intro l hl
+    obtain ⟨e, he, rfl⟩ := List.mem_map.mp hl
+    have hnl := hkm.normal e he
+    have h1 : m.lookup e.1 = some e.2 := (lookup_iff_mem hok hkm.normal e.2).mpr he
+    rw [marshalMap_lookup k m hm hflat.params.normal] at h1
+    have h2 : tmp.lookup e.1 ≠ none := by
+      unfold wireLookup at h1
+      simp only [] at h1
+      cases hpl : k.params.lookup e.1 with
+      | some v =>
+        apply lookup_erase5_some
+        intro hne
+        rw [hpe, lookup_retype _ _ _ (by rw [hnl]; simp), hne] at hpl
+        cases hpl
+      | none =>
+        rw [hpl] at h1
+        simp only [] at h1
+        have hb : (baseMap k).lookup e.1 ≠ none := by
+          intro hne
+          rw [hne] at h1
+          split at h1 <;> cases h1
+        have hc : isCommon e.1 := by
+          cases Classical.em (isCommon e.1) with
+          | inl h => exact h
+          | inr h => exact absurd (baseMap_lookup_other k _ h) hb
+        obtain ⟨b1, b2, b3, b4, b5⟩ := baseMap_lookup k
+        rcases hc with h | h | h | h | h <;> rw [h] at hb ⊢
+        · rw [hkty]; simp
+        · rw [b2] at hb
+          cases hid : k.id with
+          | none => rw [hid] at hb; exact absurd rfl hb
+          | some c => rw [fid c hid]; simp
+        · rw [b3] at hb
+          by_cases ha : k.alg = 0
+          · rw [if_pos ha] at hb; exact absurd rfl hb
+          · rw [falg ha]; simp
+        · rw [b4] at hb
+          cases hop : k.ops with
+          | none => rw [hop] at hb; exact absurd rfl hb
+          | some o =>
+            obtain ⟨l, hl4, _⟩ := fops o hop
+            rw [hl4]; simp
+        · rw [b5] at hb
+          cases hbv : k.baseIV with
+          | none => rw [hbv] at hb; exact absurd rfl hb
+          | some c => rw [fbiv c hbv]; simp
+    cases hl2 : tmp.lookup e.1 with
+    | none => exact absurd hl2 h2
+    | some v =>
+      obtain ⟨e', he', hk', _⟩ := lookup_some_mem hl2
+      have := eq_of_keyEq_of_normalizes' (by rw [hnl]; simp) hk'
+      exact List.mem_map.mpr ⟨e', he', this⟩
+  have := List.Nodup.length_le_of_subset (keys_nodup hok hkm.normal) hsub
+  simp only [List.length_map] at this
+  simp only [List.length_nil, Nat.zero_add] at hlen_tmp
+  omega
+
+end KeyRT
+
+/-! ## C15 — re-encoding an accepted COSE_Key -/
+
+namespace C15
+open KeyRT RoundTrip
+
+/-- 3. MAIN: a COSE_Key that `UnmarshalCBOR` accepts and whose parameter values lie in the flat
+    data model (`KVal`: no nested maps, floats, simple values, or arrays of non-scalars — tags and
+    bignums are `unmodelled` and never reach an accepted key) can be re-encoded; the re-encoding
+    `b'` is accepted again, and encoding the key decoded from `b'` yields `b'` byte for byte:
+    decode → encode → decode → encode is a fixpoint after the first encode.  The key `k2` decoded
+    from `b'` has the same common fields as `k`; its parameters are those of `k` with EC2 x / y at
+    full length (`wireParam`), in canonical (wire) order.  Nothing else is assumed: the ranges of
+    the common fields, the shape of the labels and the size of the map follow from the decoder
+    (`accepted_flat`). -/
+theorem reencode_idempotent (b : Bytes) (k : Key) (hu : Key.unmarshal b = .ok k)
+    (hvals : ∀ e ∈ k.params, KVal e.2) :
+    ∃ b', k.marshal = .ok b' ∧ ∃ k2, Key.unmarshal b' = .ok k2 ∧ k2.marshal = .ok b' ∧
+      k2.kty = k.kty ∧ k2.id = k.id ∧ k2.alg = k.alg ∧ k2.ops = k.ops ∧ k2.baseIV = k.baseIV ∧
+      (∀ l, normalizeLabel l = some l → ¬ isCommon l → k2.params.lookup l = wireParam k l) ∧
+      (∀ l, isCommon l → k2.params.lookup l = none) ∧
+      (∀ n : Int, int64Range n → n < 0 → k2.pbytes n = wirePbytes k n) ∧
+      (k.kty = 1 ∨ k.kty = 2 → k2.crv = k.crv) := by
+  obtain ⟨hf, hs⟩ := accepted_flat b k hu hvals
+  obtain ⟨m, k2, _, h1, h2, h3, e1, e2, e3, e4, e5, h4, h5, h6, h7, _⟩ := reencode_core b k hu hf hs
+  exact ⟨_, h1, k2, h2, h3, e1, e2, e3, e4, e5, h4, h5, h6, h7⟩
+
+/-- 3'. every further cycle returns the same bytes and the same key -/
+theorem reencode_stable (b : Bytes) (k : Key) (hu : Key.unmarshal b = .ok k)
+    (hvals : ∀ e ∈ k.params, KVal e.2) (b' : Bytes) (hb : k.marshal = .ok b') :
+    ∃ k2, Key.unmarshal b' = .ok k2 ∧ k2.marshal = .ok b' ∧
+      (Key.unmarshal b' >>= Key.marshal) = .ok b' := by
+  obtain ⟨hf, hs⟩ := accepted_flat b k hu hvals
+  obtain ⟨m, k2, _, h1, h2, h3, _⟩ := reencode_core b k hu hf hs
+  rw [h1] at hb
+  cases hb
+  exact ⟨k2, h2, h3, by rw [h2]; exact h3⟩
+
+/-- 3''. an accepted key always re-encodes when its parameter values are flat: `MarshalCBOR`
+    cannot fail on it -/
+theorem accepted_marshals (b : Bytes) (k : Key) (hu : Key.unmarshal b = .ok k)
+    (hvals : ∀ e ∈ k.params, KVal e.2) : ∃ b', k.marshal = .ok b' := by
+  obtain ⟨b', h, _⟩ := reencode_idempotent b k hu hvals
+  exact ⟨b', h⟩
+
+end C15
+
+/-! ## the hypotheses are needed; non-vacuity -/
+
+namespace C14
+open KeyRT RoundTrip
+
+/-- `validate` is needed: `MarshalCBOR` does not validate, `UnmarshalCBOR` does.  The symmetric key
+    without its `k` parameter is emitted as `a1 01 04` and refused on the way back. -/
+theorem key_marshal_unmarshal_needs_validate :
+    ∃ k : Key, KeyFlat k ∧ KeySize k ∧ ParamsDisjoint k ∧ k.validate .none ≠ none ∧
+      k.marshal = .ok [0xa1, 0x01, 0x04] ∧ Key.unmarshal [0xa1, 0x01, 0x04] = .err .other := by
+  have hf : KeyFlat { kty := 4 } := by decide
+  have hm : ({ kty := 4 } : Key).marshalMap = some [(lbl 1, .int .i64 4)] := rfl
+  have hbytes : (kMapWire [(lbl 1, .int .i64 4)]).bytes = [0xa1, 0x01, 0x04] := by
+    simp [kMapWire, kWirePairs, sortEntries]
+    rfl
+  obtain ⟨hkm, hok, hlen⟩ := marshalMap_inv hf hm
+  refine ⟨{ kty := 4 }, hf, by simp [KeySize, maxElems], ⟨rfl, rfl, rfl, rfl, rfl⟩,
+    by simp [Key.validate, Key.pbytes, paramBytes, lookup_nil, Lk.getD], ?_, ?_⟩
+  · rw [← hbytes]
+    exact marshal_of_marshalMap hf hm
+  · rw [← hbytes, unmarshal_bytes hkm.kmap hok (by simp [maxElems])]
+    simp [sortEntries, kNormEntry, normVal, kNorm, Key.ofMap, lookup_cons, lookup_nil,
+      paramBytes, keyParams, GoMap.erase, Key.validate, Key.pbytes, Lk.getD, lbl, GoVal.keyEq]
+
+/-- a key whose `Params` hold an entry under label 1 -/
+def overrideKey : Key := { kty := 4, params := [(lbl 1, .int .i64 5), (lbl (-1), .bytes [1])] }
+
+/-- `ParamsDisjoint` is needed: `MarshalCBOR` lets a parameter stored under the label of a common
+    field overwrite that field.  `Key{Type: 4, Params: {1: 5, -1: h'01'}}` is valid, is emitted
+    as `a2 01 05 20 41 01`, and decodes as a key of type 5.  (go-cose behaves the same.) -/
+theorem key_marshal_unmarshal_needs_disjoint :
+    KeyFlat overrideKey ∧ KeySize overrideKey ∧ overrideKey.validate .none = none ∧
+    ¬ ParamsDisjoint overrideKey ∧
+    ∃ b k', overrideKey.marshal = .ok b ∧ Key.unmarshal b = .ok k' ∧ k'.kty = 5 := by
+  have hf : KeyFlat overrideKey := by decide
+  have hm : overrideKey.marshalMap = some [(lbl 1, .int .i64 5), (lbl (-1), .bytes [1])] := rfl
+  have hsrt : sortEntries [(lbl 1, .int .i64 5), (lbl (-1), .bytes [1])]
+      = [(lbl 1, .int .i64 5), (lbl (-1), .bytes [1])] := by
+    apply List.mergeSort_of_pairwise
+    simp [valWire, intWire, lbl, Wire.bytes]
+    decide
+  obtain ⟨hkm, hok, hlen⟩ := marshalMap_inv hf hm
+  refine ⟨hf, by simp [KeySize, overrideKey, maxElems], ?_, ?_, _,
+    { kty := 5, params := [(lbl (-1), .bytes [1])] }, marshal_of_marshalMap hf hm, ?_, rfl⟩
+  · simp [overrideKey, Key.validate, Key.pbytes, paramBytes, lookup_cons, keyEq_lbl_lbl, Lk.getD]
+  · intro h
+    have := h.1
+    simp [overrideKey, lookup_cons, keyEq_lbl_lbl] at this
+  · rw [unmarshal_bytes hkm.kmap hok (by simp [maxElems]), hsrt]
+    simp [kNormEntry, normVal, kNorm, Key.ofMap, lookup_cons, lookup_nil,
+      paramBytes, keyParams, GoMap.erase, Key.validate, Lk.getD, lbl, GoVal.keyEq]
+
+/-- a valid EC2 key whose private scalar is stored under the Go key `int8(-4)` -/
+def int8Key : Key :=
+  { kty := 2, params := [(lbl (-1), .crv 1), (lbl (-2), .bytes [1]),
+                         (.int .i8 (-4), .bytes (List.replicate 33 0))] }
+
+/-- the int64 spelling of integer labels (`KeyLabel`) is needed: the accessors and `validate` look
+    parameters up under the `int64` key only, `MarshalCBOR` normalises every integer label.  A 33
+    byte `d` under `int8(-4)` is invisible to `validate`, is emitted under -4, and is refused
+    on the way back (coordinate too long for P-256).  (go-cose behaves the same.) -/
+theorem key_marshal_unmarshal_needs_int64_labels :
+    (∀ e ∈ int8Key.params, FlatLabel e.1 ∧ KVal e.2) ∧ LabelsOK int8Key.params ∧
+    int8Key.validate .none = none ∧ ParamsDisjoint int8Key ∧
+    ∃ b, int8Key.marshal = .ok b ∧ Key.unmarshal b = .err .other := by
+  let M : GoMap := [(lbl 1, .int .i64 2), (lbl (-1), .crv 1), (lbl (-2), .bytes (leftPad 32 [1])),
+    (lbl (-4), .bytes (List.replicate 33 0))]
+  have hm : int8Key.marshalMap = some M := rfl
+  have hkm : KMap M := by
+    intro e he
+    simp only [M, List.mem_cons, List.not_mem_nil, or_false] at he
+    rcases he with rfl | rfl | rfl | rfl
+    · exact ⟨show int64Range 1 by decide, show int64Range 2 by decide⟩
+    · exact ⟨show int64Range (-1) by decide, show int64Range 1 by decide⟩
+    · exact ⟨show int64Range (-2) by decide, by simp [KVal, leftPad]⟩
+    · exact ⟨show int64Range (-4) by decide, by simp [KVal]⟩
+  have hok : LabelsOK M := by
+    rw [labelsOK_iff_normLabels]
+    simp [M, normLabels, normalizeLabel, lbl, wrap64]
+  have hsrt : sortEntries M = M := by
+    apply List.mergeSort_of_pairwise
+    simp [M, valWire, intWire, lbl, Wire.bytes]
+    decide
+  refine ⟨?_, ?_, ?_, ?_, (kMapWire M).bytes, ?_, ?_⟩
+  · intro e he
+    simp only [int8Key, List.mem_cons, List.not_mem_nil, or_false] at he
+    rcases he with rfl | rfl | rfl
+    · exact ⟨show int64Range (-1) by decide, show int64Range 1 by decide⟩
+    · exact ⟨show int64Range (-2) by decide, by simp [KVal]⟩
+    · exact ⟨show int64Range (-4) by decide, by simp [KVal]⟩
+  · rw [labelsOK_iff_normLabels]
+    simp [int8Key, normLabels, normalizeLabel, lbl, wrap64]
+  · simp [int8Key, Key.validate, Key.pbytes, paramBytes, Key.crv, paramInt, lookup_cons, lookup_nil,
+      Lk.getD, curveSize, lbl, GoVal.keyEq]
+  · refine ⟨?_, ?_, ?_, ?_, ?_⟩ <;>
+      simp [int8Key, lookup_cons, lookup_nil, lbl, GoVal.keyEq]
+  · unfold Key.marshal
+    rw [hm]
+    exact marshalAny_k hkm
+  · rw [unmarshal_bytes hkm hok (by simp [M, maxElems]), hsrt]
+    simp [M, kNormEntry, normVal, kNorm, Key.ofMap, lookup_cons, lookup_nil, leftPad,
+      paramBytes, keyParams, GoMap.erase, Key.validate, Key.pbytes, Key.crv, paramInt, Lk.getD, lbl,
+      GoVal.keyEq, curveSize]
+
+end C14
+
+/-! ### non-vacuity: a P-256 public key with kid, alg and key_ops -/
+
+namespace C14
+open KeyRT RoundTrip
+
+/-- `{1: 2, 2: h'3131', 3: -7, 4: [2], -1: 1, -2: h'010203', -3: h'0405'}` (short coordinates, to
+    exercise the padding) -/
+def exKey : Key :=
+  { kty := 2, id := some [0x31, 0x31], alg := -7, ops := some [2],
+    params := [(lbl (-1), .crv 1), (lbl (-2), .bytes [1, 2, 3]), (lbl (-3), .bytes [4, 5])] }
+
+theorem exKey_flat : KeyFlat exKey ∧ KeySize exKey ∧ ParamsDisjoint exKey ∧
+    exKey.validate .none = none := by
+  refine ⟨by decide, by decide, by decide, ?_⟩
+  · simp [exKey, Key.validate, Key.pbytes, paramBytes, Key.crv, paramInt, lookup_cons, lookup_nil,
+      keyEq_lbl_lbl, Lk.getD, curveSize, Key.deriveAlgorithm]
+
+/-- theorem 1 on `exKey`: it marshals, the bytes unmarshal, all common fields come back, and the
+    coordinates come back at the full 32 bytes with the same value -/
+example : ∃ b k', exKey.marshal = .ok b ∧ Key.unmarshal b = .ok k' ∧
+    k'.kty = 2 ∧ k'.id = some [0x31, 0x31] ∧ k'.alg = -7 ∧ k'.ops = some [2] ∧ k'.baseIV = none ∧
+    k'.crv = 1 ∧ (k'.pbytes (-2)).length = 32 ∧ (k'.pbytes (-3)).length = 32 ∧
+    k'.ecCoords = (0x010203, 0x0405, 0) := by
+  obtain ⟨hf, hs, hd, hv⟩ := exKey_flat
+  obtain ⟨m, hm⟩ := marshalMap_some exKey hf.params.normal (by
+    rw [labelsOK_iff_normLabels]
+    simp [exKey, normLabels, normalizeLabel, lbl, wrap64])
+  have hb := marshal_of_marshalMap hf hm
+  obtain ⟨k', hu, e1, e2, e3, e4, e5, _, _, hpb, hcr, _⟩ := key_marshal_unmarshal exKey hf hs hd hv _ hb
+  have hc : exKey.crv = 1 := crv_of_lookup exKey 1 (by simp [exKey, lookup_cons, keyEq_lbl_lbl])
+  have hx : exKey.pbytes (-2) = [1, 2, 3] :=
+    pbytes_of_lookup exKey _ _ (by simp [exKey, lookup_cons, keyEq_lbl_lbl])
+  have hy : exKey.pbytes (-3) = [4, 5] :=
+    pbytes_of_lookup exKey _ _ (by simp [exKey, lookup_cons, keyEq_lbl_lbl])
+  have hdd : exKey.pbytes (-4) = [] := by
+    simp [exKey, Key.pbytes, paramBytes, lookup_cons, lookup_nil, keyEq_lbl_lbl, Lk.getD]
+  have q2 : k'.pbytes (-2) = leftPad 32 [1, 2, 3] := by
+    rw [hpb (-2) (by decide) (by decide), wirePbytes, if_pos ⟨rfl, Or.inl rfl⟩, hx, hc]; rfl
+  have q3 : k'.pbytes (-3) = leftPad 32 [4, 5] := by
+    rw [hpb (-3) (by decide) (by decide), wirePbytes, if_pos ⟨rfl, Or.inr rfl⟩, hy, hc]; rfl
+  have q4 : k'.pbytes (-4) = [] := by
+    rw [hpb (-4) (by decide) (by decide), wirePbytes, if_neg (fun h => by have := h.2; omega), hdd]
+  refine ⟨_, k', hb, hu, e1, e2, e3, e4, e5, by rw [hcr (Or.inr rfl), hc], ?_, ?_, ?_⟩
+  · rw [q2, leftPad_length]; decide
+  · rw [q3, leftPad_length]; decide
+  · unfold Key.ecCoords
+    rw [q2, q3, q4, os2ip_leftPad, os2ip_leftPad]
+    decide
+
+/-- theorem 3 on the bytes of `exKey`: decode → encode → decode → encode reaches a fixpoint -/
+example : ∃ b k b' k2, exKey.marshal = .ok b ∧ Key.unmarshal b = .ok k ∧ k.marshal = .ok b' ∧
+    Key.unmarshal b' = .ok k2 ∧ k2.marshal = .ok b' ∧ k2.kty = 2 ∧ k2.id = some [0x31, 0x31] ∧
+    k2.alg = -7 ∧ k2.ops = some [2] := by
+  obtain ⟨hf, hs, hd, hv⟩ := exKey_flat
+  obtain ⟨m, hm⟩ := marshalMap_some exKey hf.params.normal (by
+    rw [labelsOK_iff_normLabels]
+    simp [exKey, normLabels, normalizeLabel, lbl, wrap64])
+  have hb := marshal_of_marshalMap hf hm
+  obtain ⟨k, hu, e1, e2, e3, e4, _, _, _, _, _, _, hf', hlen⟩ :=
+    key_marshal_unmarshal exKey hf hs hd hv _ hb
+  obtain ⟨b', h1, k2, h2, h3, f1, f2, f3, f4, _⟩ :=
+    C15.reencode_idempotent _ k hu (fun e he => (hf'.params e he).2)
+  exact ⟨_, k, b', k2, hb, hu, h1, h2, h3, by rw [f1, e1]; rfl, by rw [f2, e2]; rfl,
+    by rw [f3, e3]; rfl, by rw [f4, e4]; rfl⟩
+
+end C14
+
